@@ -7,6 +7,7 @@ CONSTANTS
   FieldNames <- MCFields
   Routes <- MCRoutes
   MaxSlots = 3
+  MaxPtrs = 1
   MaxVer = 2
   MaxSteps = 4
 INVARIANT WellTyped
